@@ -241,13 +241,27 @@ def _check_from_dict(prog: Program, L: Ledger, d: ClassInfo, fd: FuncInfo) -> No
             "from_dict does not replay the 'attributes' entry (step counter) onto the simulation", "step counter lost on restart", "attributes")
     L.check(has_setattr_loop("context", f"{inst}.context"), "T4", f"{d.name}.from_dict:context", fd.where,
             "from_dict does not replay the 'context' entry onto the simulation's context", "temperature/pressure/reference energies lost on restart", "context")
+    # the move table is rebuilt: either the rebuilt MoveStorage is stored as is, or add_move is called
+    # with every field of the stored entry forwarded
+    storage_fields = list(prog.cls("MoveStorage").class_annotations)
     moves_ok = False
+    detail = "from_dict does not rebuild the move table"
     for n in walk_no_nested(body):
         if isinstance(n, ast.For) and "moves" in norm(n.iter):
-            for s in walk_no_nested(n):
-                if isinstance(s, ast.Assign) and norm(s.targets[0]).startswith(f"{inst}.moves["):
+            for s_ in walk_no_nested(n):
+                if isinstance(s_, ast.Assign) and norm(s_.targets[0]).startswith(f"{inst}.moves["):
                     moves_ok = True
-    L.check(moves_ok, "T4", f"{d.name}.from_dict:moves", fd.where, "from_dict does not rebuild the move table", "resumed run has no moves", "moves")
+                if isinstance(s_, ast.Call) and norm(s_.func) == f"{inst}.add_move":
+                    add = prog.lookup_method(d, "add_move")
+                    pnames = add.params()[1:] if add else []
+                    given = set(pnames[: len(s_.args)]) | {k.arg for k in s_.keywords if k.arg}
+                    missing = [f for f in storage_fields if f not in given and f in pnames]
+                    if not missing:
+                        moves_ok = True
+                    else:
+                        detail = f"from_dict re-adds the moves through add_move without forwarding {missing}: the rebuilt entry falls back to add_move's defaults"
+    L.check(moves_ok, "T4", f"{d.name}.from_dict:moves", fd.where, detail,
+            "a move stored with a non-default " + ("/".join(m for m in storage_fields if m in detail) or "entry") + " is scheduled differently after restart: the resumed trajectory diverges", "moves")
 
 
 def _check_context_state(prog: Program, L: Ledger, d: ClassInfo) -> None:
